@@ -1132,6 +1132,10 @@ class AttrParser(BaseParser):
         not allow classes to self-reference.
         """
         span: Span
+        component_spans: tuple[Span, Span] | None = None
+        """
+        The spans of the real and imaginary components of a complex value.
+        """
 
         def to_int(
             self,
@@ -1180,7 +1184,15 @@ class AttrParser(BaseParser):
             assert isinstance(self.value, tuple)
 
             if isinstance(type.element_type, AnyFloat):
-                return (float(self.value[0]), float(self.value[1]))
+                # A hexadecimal component gives the bit pattern of the float
+                spans = self.component_spans or (self.span, self.span)
+                real, imag = (
+                    AttrParser._TensorLiteralElement(False, v, s).to_float(
+                        parser, type.element_type
+                    )
+                    for v, s in zip(self.value, spans)
+                )
+                return (real, imag)
 
             match type.element_type:
                 case IntegerType():
@@ -1256,18 +1268,39 @@ class AttrParser(BaseParser):
     def _parse_optional_complex(
         self,
     ) -> tuple[tuple[float, float] | tuple[int, int] | tuple[bool, bool], Span] | None:
+        if (res := self._parse_optional_complex_and_component_spans()) is None:
+            return None
+        return res[0], res[1]
+
+    def _parse_optional_complex_and_component_spans(
+        self,
+    ) -> (
+        tuple[
+            tuple[float, float] | tuple[int, int] | tuple[bool, bool],
+            Span,
+            tuple[Span, Span],
+        ]
+        | None
+    ):
         if self._current_token.kind != MLIRTokenKind.L_PAREN:
             return None
 
         token = self._consume_token(MLIRTokenKind.L_PAREN)
         start = token.span.start
         input = token.span.input
-        real, _ = self._parse_bool_int_or_float()
+        real, real_span = self._parse_bool_int_or_float()
         self.parse_punctuation(",")
-        imag, _ = self._parse_bool_int_or_float()
-        real_ty = type(real)
-        imag_ty = type(imag)
-        if real_ty != imag_ty:
+        imag, imag_span = self._parse_bool_int_or_float()
+
+        def is_float_component(value: bool | int | float, span: Span) -> bool:
+            # A hexadecimal literal may stand for the bit pattern of a float
+            return isinstance(value, float) or (
+                not isinstance(value, bool) and span.text[:2] in ("0x", "0X")
+            )
+
+        if type(real) is not type(imag) and not (
+            is_float_component(real, real_span) and is_float_component(imag, imag_span)
+        ):
             self.raise_error(
                 "Complex value must be either (float, float) or (int, int)"
             )
@@ -1275,7 +1308,7 @@ class AttrParser(BaseParser):
         end = token.span.end
         value = (real, imag)
         span = Span(start, end, input)
-        return value, span
+        return value, span, (real_span, imag_span)
 
     def _parse_bool_int_or_float(
         self,
@@ -1293,9 +1326,9 @@ class AttrParser(BaseParser):
         if scalar_span := self._parse_optional_bool_int_or_float():
             value, span = scalar_span
             return self._TensorLiteralElement(value < 0, value, span)
-        elif complex_span := self._parse_optional_complex():
-            value, span = complex_span
-            return self._TensorLiteralElement(False, value, span)
+        elif complex_span := self._parse_optional_complex_and_component_spans():
+            value, span, component_spans = complex_span
+            return self._TensorLiteralElement(False, value, span, component_spans)
 
         self.raise_error("Expected either a float, integer, or complex literal")
 
